@@ -7,6 +7,7 @@ package main
 //   C14:denied-forwarded   a receive filter hijacked / sent a direct response / terminated, yet ConnectionPool.NewStream was called
 //   C14:reply-not-local    it answered (no termination, no disconnect) but the client did not get exactly one local reply
 //   C14:send-filter-count  a send filter ran more than once on that reply / not at all
+//   C14:filter-never-destroyed / filter-destroyed-twice   OnDestroy exactly once per filter of a finished stream (snderr.go)
 //   C14:order              within one pass of a phase the receive filters were not called in increasing configured order,
 //                          or a re-match / re-choose did not resume at the requesting filter
 
@@ -31,6 +32,10 @@ func c14Finder(run *Run, j *histJob) {
 		run.Fail("C14:panic", "the request worker panicked: "+r.Panicked, replay)
 		return
 	}
+	if senderErrFinder(run, j, replay) {
+		return
+	}
+	destroyFinder(run, j, replay)
 	// every stream starts its first pass at the head of the chain: the first BeforeRoute filter configured must be the first
 	// filter called (before any routing / upstream activity)
 	firstBR := -1
@@ -264,8 +269,9 @@ func runPairs(pairs []*pairJob) {
 
 func c14(args []string) int {
 	run := NewRun("C14", args)
-	run.Sum.Rule = "filter chains through the real proxy and the real streamfilter chain: every chain of one receive filter (3 phases x 8 verdicts) alone and with one send filter (3 verdicts); two-filter chains over all phase pairs x verdict pairs (sampled 1/3 in the quick tier, all in thorough); random chains of 1..5 filters with per-invocation verdict scripts, some with client disconnect / direct-response route / no route / one-way. Verdicts: continue, stop, termination, hijack(+stop), hijack(+continue), direct response, re-match, re-choose. Non-trivial: at least one filter in the chain; distinct by the full description."
+	run.Sum.Rule = "filter chains through the real proxy and the real streamfilter chain: every chain of one receive filter (3 phases x 8 verdicts) alone and with one send filter (3 verdicts); two-filter chains over all phase pairs x verdict pairs (sampled 1/3 in the quick tier, all in thorough); random chains of 1..5 filters with per-invocation verdict scripts, some with client disconnect / direct-response route / no route / one-way. Verdicts: continue, stop, termination, hijack(+stop), hijack(+continue), direct response, re-match, re-choose. Plus 37 histories in which the downstream sender returns an error from AppendHeaders / AppendData / AppendTrailers: every reply kind (upstream reply headers-only / with body / with trailers, filter hijack per phase, filter direct response, route direct response, no route, no host, reset / overflow / time-out replies, TerminateStream, send-filter answers, retried 503) x every sender call occurring in it. Non-trivial: at least one filter in the chain; distinct by the full description."
 	specs := genC14(run)
+	specs = append(specs, genSenderErr()...) // the downstream sender fails: cleaned once, every filter destroyed once
 	jobs := make([]*histJob, len(specs))
 	for i, sp := range specs {
 		jobs[i] = &histJob{id: 100000 + i + 1, spec: sp}
